@@ -665,6 +665,21 @@ static void gen_field(Gen& g, const std::string& tier, const std::string& profil
                 g.emit("rtr", {Gen::tok(xs), g.poly((long)g.rng.below(n + 2) - 1, g.pick_norm_shape())});
             }
         }
+        // Newton interpolation: no point at all, one point, and longer divided-difference columns (fields large enough)
+        g.emit("interp", {"[]", "[]"});
+        for (long n : {(long)16, (long)33, (long)64}) {
+            if (g.isQ ? n > 16 : Integer(4 * n) > g.p) continue;
+            if (!thorough && n > 33) continue;
+            std::set<std::string> seen; std::vector<std::string> xs, fs;
+            int guard = 0;
+            while ((long)xs.size() < n && guard++ < 100000) { std::string x = g.isQ ? vp::hex_ll((long long)xs.size() - 5) + "/1" : g.scalar(5); if (seen.insert(x).second) xs.push_back(x); }
+            if ((long)xs.size() < n) continue;
+            // values of a polynomial of low degree (the top of the column must vanish) or arbitrary values
+            for (long i = 0; i < n; ++i) fs.push_back(g.isQ ? g.scalar((int)g.rng.below(4)) : g.scalar());
+            g.emit("interp", {Gen::tok(xs), Gen::tok(fs)});
+            std::vector<std::string> cst(n, g.nz());
+            g.emit("interp", {Gen::tok(xs), Gen::tok(cst)});
+        }
         if (g.ftok.compare(0, 2, "p:") == 0)
             for (int rep = 0; rep < (thorough ? 60 : 20); ++rep) {
                 long d = (long)g.rng.below(12);
